@@ -150,7 +150,7 @@ def state_diff(a, b, exact_fields=True, tol=0.0):
         if isinstance(x, dict):
             bad += [f"{k}.{z}" for z in state_diff(x, y, exact_fields, tol)]
         elif isinstance(x, np.ndarray):
-            if not isinstance(y, np.ndarray) or x.shape != y.shape or not np.allclose(x, y, rtol=0, atol=tol * max(1.0, float(np.abs(x).max()) if x.size else 1.0)):
+            if not isinstance(y, np.ndarray) or x.shape != y.shape or not np.allclose(x, y, rtol=0, atol=tol * (float(np.abs(x).max()) if x.size and np.abs(x).max() > 0 else 1.0)):
                 bad.append(k)
         elif isinstance(x, list):
             if len(x) != len(y) or any((not np.array_equal(p, q)) if isinstance(p, np.ndarray) else p != q for p, q in zip(x, y)):
@@ -192,8 +192,25 @@ def same_result(a, b):
         return a == b or repr(a) == repr(b)
 
 
-def check_sequence(cls_name, seq, tmpdir, variant=0):
-    obj = _curved_stock(cls_name) if cls_name in CLASSES[:4] else stock_real(cls_name, variant)
+def _scaled_stock(cls_name, scale, variant=0):
+    """the stock shape of a vertex-based class with all lengths multiplied by `scale` (built by the real constructor)"""
+    from .bounded_c03 import fresh
+    o = stock_real(cls_name, variant)
+    proxy = type(cls_name, (), {})()
+    proxy.vertices = np.asarray(o.vertices, float) * scale
+    for attr in ("normal", "faces"):
+        if hasattr(o, attr):
+            setattr(proxy, attr, getattr(o, attr))
+    if hasattr(o, "radius"):
+        proxy.radius = float(o.radius) * scale
+    return fresh(proxy)
+
+
+def check_sequence(cls_name, seq, tmpdir, variant=0, scale=None):
+    if scale is not None:
+        obj = _scaled_stock(cls_name, scale, variant)
+    else:
+        obj = _curved_stock(cls_name) if cls_name in CLASSES[:4] else stock_real(cls_name, variant)
     base = deep_state(obj)
     held = handouts(obj)
     for (name, kind) in seq:
@@ -222,13 +239,13 @@ def check_sequence(cls_name, seq, tmpdir, variant=0):
     if d:
         problems.append(f"fields changed: {d}")
     for hn, (arr, cp) in held.items():
-        if not np.allclose(arr, cp, rtol=0, atol=tol * max(1.0, float(np.abs(cp).max()) if cp.size else 1.0)):
+        if not np.allclose(arr, cp, rtol=0, atol=tol * (float(np.abs(cp).max()) if cp.size and np.abs(cp).max() > 0 else 1.0)):
             problems.append(f"array handed out earlier by .{hn} was modified")
     for a, c in zip(a1, a1c):
         c0 = PRISTINE.get(id(a), c)
         if not np.array_equal(a, c) or a.shape != c0.shape or not np.array_equal(a, c0):
             problems.append(f"argument array modified (passed {c0.reshape(-1)[:8].tolist()}, afterwards {a.reshape(-1)[:8].tolist()})")
-    if r1 is not None and not same_result(r1, r2):
+    if scale is None and r1 is not None and not same_result(r1, r2):      # (answers of very small / large shapes carry units: compared at unit size only)
         problems.append(f"repeating {name} gave a different answer")
     return problems
 
@@ -281,6 +298,21 @@ def run_bounded(chk):
                     fails.append((seq, probs))
                     if len(fails) >= 3:
                         break
+            # the members that move the shape and move it back (or work on copies), on very small and very large shapes: an absolute
+            # tolerance in such a member is invisible at unit size
+            if cls_name not in CLASSES[:4]:
+                movers = [m for m in mem if m[0] in ("to_hoomd", "save", "inertia_tensor", "is_inside", "compute_form_factor_amplitude", "distance_to_surface",
+                                                     "to_json", "minimal_bounding_sphere", "minimal_bounding_circle")]
+                for sc in (1e-9, 1e-4, 1e6):
+                    for m in movers:
+                        n += 1
+                        try:
+                            probs = check_sequence(cls_name, [m], tmp, scale=sc)
+                        except Exception as e:  # noqa: BLE001
+                            probs = [f"checker could not run the sequence: {type(e).__name__}: {e}"]
+                        if probs:
+                            fails.append((((f"{m[0]}@scale={sc:g}", m[1]),), probs))
+                            break
         for seq, probs in fails:
             nm = " ; ".join(m for m, _ in seq)
             c.record(f"bounded:queries_pure[{cls_name}:{nm}]", fkey, "bounded-fail", "snapshot-compare", detail=str(probs)[:400], model={},
@@ -288,7 +320,7 @@ def run_bounded(chk):
         if not fails:
             c.record(f"bounded:queries_pure[{cls_name}]", fkey, "bounded-pass", "snapshot-compare", kind="bounded", detail=f"{n} sequences")
         c.bounded.append({"clause": f"{cls_name}: fields, handed-out arrays and argument arrays unchanged by every member; repeated queries agree",
-                          "bound": "one off-origin stock shape; every member alone; ordered pairs of "
+                          "bound": "one off-origin stock shape; every member alone, the moving members also at scales 1e-9, 1e-4, 1e6; ordered pairs of "
                                    + ("a key subset of members (quick)" if c.tier == "quick" else "all members"),
                           "evaluations": n, "distinct_nontrivial": n, "rule": "distinct = member sequences",
                           "samples": [{"class": cls_name, "members": [m for m, _ in mem][:6]}], "failures": len(fails), "exhaustive": False})
